@@ -10,8 +10,7 @@ from . import shared_py as P
 from . import c06
 
 
-def ws(s):
-    return re.sub(r'\s+', ' ', s)
+from ..pyfront import ws  # noqa: E402,F401  (whitespace-collapsed, rename/normal-form tolerant `in`)
 
 
 def run(ctx, L, tier):
@@ -80,10 +79,25 @@ def checked_stores(ctx, L):
         L.check(len(f.node.body) == 1 and isinstance(f.node.body[0], ast.Raise) and 'ProphyError' in unparse(f.node.body[0]),
                 'C10a.checked-store', q, f.site(), 'assignment to an array / composite field must be refused', unparse(f.node))
     oc = gen.func('struct_generator.add_composite_property.setter', 0)
+    SP = ['self', 'new_value']
+    muts = [x for x in oc.walk() if (isinstance(x, ast.Assign) and '_fields' in unparse(x.targets[0]))
+            or (isinstance(x, ast.Call) and isinstance(x.func, ast.Attribute) and '_fields' in unparse(x.func.value)
+                and x.func.attr in ('pop', 'clear', 'update', 'setdefault', '__setitem__', '__delitem__'))
+            or (isinstance(x, ast.Delete) and '_fields' in unparse(x))]
+    ok = len(muts) == 2
+    for x in muts:
+        if isinstance(x, ast.Assign):
+            ok = ok and P.knows(oc, x, 'new_value is True', True, SP) and re.match(r'^\w+\.type\(\)$', ws(unparse(x.value))) is not None
+        elif isinstance(x, ast.Call) and x.func.attr == 'pop':
+            ok = ok and P.knows(oc, x, 'new_value is None', True, SP)
+        else:
+            ok = False
+    refuses = [r for r in oc.walk() if isinstance(r, ast.Raise) and r.exc is not None and 'ProphyError' in unparse(r.exc)
+               and P.knows(oc, r, 'new_value is True', False, SP) and P.knows(oc, r, 'new_value is None', False, SP)]
     s = ws(unparse(oc.node))
-    L.check(inn('if new_value is True: self._fields[descriptor_field.name] = descriptor_field.type() elif new_value is None: '
-            'self._fields.pop(descriptor_field.name, None) else: raise ProphyError', s), 'C10a.checked-store',
-            'add_composite_property.setter#optional', oc.site(), 'an optional composite accepts only True (fresh instance) / None', s)
+    L.check(ok and len(refuses) >= 1, 'C10a.checked-store',
+            'add_composite_property.setter#optional', oc.site(), 'an optional composite accepts only True (stores a fresh instance) / None '
+            '(removes the field) and refuses everything else with ProphyError', s)
     # array mutators
     cont = ctx.py.mod('prophy.container')
     base = ctx.py.mod('prophy.base_array')
@@ -369,31 +383,32 @@ def mutator_escapes(ctx, L):
 
 def check_returns(ctx, L):
     """Every value a `_check` function returns has passed the test that defines the field's domain: each `return` is
-    dominated by the rejecting guards (no shortcut path that accepts a value unexamined)."""
+    reached only with the rejecting guards known to have failed (no shortcut path that accepts a value unexamined). Guards are
+    compared by meaning (normal form, parameters by position, locals by definition), not by spelling."""
     sc = ctx.py.mod('prophy.scalar')
     gen = ctx.py.mod('prophy.generators')
     comp = ctx.py.mod('prophy.composite')
     specs = [
-        (sc.func('int_decorator.decorator.check'), [['not isinstance(value, (int, long))'], ['not min_ <= value <= max_']]),
-        (sc.func('float_decorator.decorator.check'), [['not isinstance(value, (float, int, long))']]),
-        (comp.func('bytes_._bytes._check'), [['not isinstance(value, bytes)'], ['size and len(value) > size']]),
+        (sc.func('int_decorator.decorator.check'), ['value'], [('not isinstance(value, (int, long))', False), ('not min_ <= value <= max_', False)]),
+        (sc.func('float_decorator.decorator.check'), ['value'], [('not isinstance(value, (float, int, long))', False)]),
+        (comp.func('bytes_._bytes._check'), ['value'], [('not isinstance(value, bytes)', False), ('size and len(value) > size', False)]),
     ]
-    for f, groups in specs:
+    n = 0
+    for f, params, guards in specs:
         for r in [x for x in f.walk() if isinstance(x, ast.Return)]:
-            conds = [(ws(unparse(t)), pol, how) for t, pol, how in path_conditions(f.module, f, r)]
-            for alts in groups:
-                ok = any((a, False) == (t, pol) and how.startswith('early-exit:raise') for a in alts for t, pol, how in conds)
-                L.check(ok, 'C10f.check-dominates-return', '%s|%s|%s' % (f.fq, norm_key(f, r), alts[0]), f.site(r),
-                        'a value is returned (accepted) by %s on a path that has not passed the rejecting test `%s`' % (f.qualname, alts[0]),
-                        ws(unparse(r)))
+            for g, holds in guards:
+                n += 1
+                L.check(P.knows(f, r, g, holds, params), 'C10f.check-dominates-return', '%s|%s|%s' % (f.fq, norm_key(f, r), g), f.site(r),
+                        'a value is returned (accepted) by %s on a path that has not passed the rejecting test `%s` (known there: %s)'
+                        % (f.qualname, g, sorted(P.facts(f, r))), ws(unparse(r)))
     e = gen.func('enum_generator.add_attributes.check')
-    rets = [x for x in e.walk() if isinstance(x, ast.Return)]
-    for r in rets:
-        conds = [(ws(unparse(t)), pol, how) for t, pol, how in path_conditions(e.module, e, r)]
-        member = any((t, pol) in (('value not in int_to_name', False), ('value is None', False)) and how.startswith('early-exit:raise')
-                     for t, pol, how in conds)
+    for r in [x for x in e.walk() if isinstance(x, ast.Return)]:
+        n += 1
+        # by value: membership in the value table; by name: the looked-up value is not None
+        member = P.knows(e, r, 'value in int_to_name', True, ['cls', 'value']) or P.knows(e, r, 'name_to_int.get(value) is None', False, ['cls', 'value']) \
+            or P.knows(e, r, 'value is None', False, ['cls', 'value'])
         L.check(member, 'C10f.check-dominates-return', '%s|%s' % (e.fq, norm_key(e, r)), e.site(r),
                 'the enum check accepts a value on a path that has not tested it against the enumerator tables (an enumerator of '
                 'another enum type, or any int subclass instance, would be stored although this enum has no such member)',
-                '%s under %s' % (ws(unparse(r)), [c[:2] for c in conds]))
-    L.floor('C10f.check-dominates-return', L.rule_count('C10f.check-dominates-return'), 6)
+                '%s under %s' % (ws(unparse(r)), sorted(P.facts(e, r))))
+    L.floor('C10f.check-dominates-return', n, 6)
